@@ -495,7 +495,22 @@ def recipe_stopped_worker(rng):
     return sc, pre
 
 
-RECIPES = {"stopped_worker": recipe_stopped_worker, "children_vanish": recipe_children_vanish, "pattern_subset": recipe_pattern_subset, "signal_veto": recipe_signal_veto, "singleton_set": recipe_singleton_set, "on_demand_stop": recipe_on_demand_stop, "untracked_zombies": recipe_untracked_zombies,
+def recipe_sequential_reload_death(rng):
+    """a sequential reload replaces the workers one after the other; a worker that is still waiting for its turn dies (or
+    is killed from outside) in the meantime: when its turn comes it is a zombie — its death still has to be announced"""
+    sc = {"arb": {"warmup_ms": 0}, "behav": [{"term": rng.choice([["obey", 150], ["obey", 250], ["ignore"]]), "kill_lat": 0, "spawn_ms": 1}],
+          "watchers": [_w("a", np=rng.choice([2, 3]), graceful_ms=rng.choice([300, 500]), warmup_ms=rng.choice([0, 100]))]}
+    pre = [["start"]] + [["wake"]] * 4
+    pre.append(_req("reload", "q1", name="a", sequential=True, waiting=rng.random() < 0.5))
+    pre += [["wake"]] * rng.choice([0, 1])
+    st = rng.choice([sim.wstat_exit(0), sim.wstat_exit(3), sim.wstat_sig(9), sim.wstat_sig(11)])
+    pre.append(lambda v: ["die", (v.pids.get("a") or [100, 101])[-1 if rng.random() < 0.7 else 1 % max(1, len(v.pids.get("a") or [1]))], st]
+               if len(v.pids.get("a") or []) > 1 else ["wake"])
+    pre += [["wake"]] * 10 + [["check"], ["wake"], ["check"]]
+    return sc, pre
+
+
+RECIPES = {"sequential_reload_death": recipe_sequential_reload_death, "stopped_worker": recipe_stopped_worker, "children_vanish": recipe_children_vanish, "pattern_subset": recipe_pattern_subset, "signal_veto": recipe_signal_veto, "singleton_set": recipe_singleton_set, "on_demand_stop": recipe_on_demand_stop, "untracked_zombies": recipe_untracked_zombies,
            "topup_start": recipe_topup_start}
 
 
